@@ -42,6 +42,7 @@ import "net"
 //@   ensures[non-nil] l != nil && err == nil ==> result0 != nil
 //@   ensures[relay-first] typeIs(l, *RelayMessage) ==> (forall i int :: {l.(*RelayMessage).Options.Options[i]} firstRelayMsg(l.(*RelayMessage).Options.Options, i) && typeIs(l.(*RelayMessage).Options.Options[i], *optRelayMsg) ==> result0 == l.(*RelayMessage).Options.Options[i].(*optRelayMsg).Msg)
 //@   ensures[relay-none] typeIs(l, *RelayMessage) && noRelayMsg(l.(*RelayMessage).Options.Options) ==> err != nil
+//@   ensures[relay-ok] typeIs(l, *RelayMessage) && l.(*RelayMessage) != nil && (exists i int :: {l.(*RelayMessage).Options.Options[i]} firstRelayMsg(l.(*RelayMessage).Options.Options, i) && typeIs(l.(*RelayMessage).Options.Options[i], *optRelayMsg) && l.(*RelayMessage).Options.Options[i].(*optRelayMsg).Msg != nil) ==> err == nil
 //@   ensures[chain-step] forall k int :: {ghostMark(k)} l == ghostChain(k) && old(relayAt(ghostChain(k), ghostChain(k+1))) ==> err == nil && result0 == ghostChain(k+1) && ghostMark(k+1) == k+1
 
 // EncapsulateRelay: only relay types are accepted; the new relay message has the given type and addresses, hop count 0
@@ -242,6 +243,8 @@ func ghostMark(k int) int { return k }
 //@ define echoed(ro, fo) = (forall i int :: {fo[i]} firstWithCode(fo, 18, i) ==> len(ro) >= 2 && ro[1] == fo[i]) && (forall i int :: {fo[i]} firstWithCode(fo, 37, i) ==> (noneWithCode(fo, 18) ==> len(ro) == 2 && ro[1] == fo[i]) && (!noneWithCode(fo, 18) ==> len(ro) == 3 && ro[2] == fo[i])) && (noneWithCode(fo, 37) ==> (noneWithCode(fo, 18) ==> len(ro) == 1) && (!noneWithCode(fo, 18) ==> len(ro) == 2))
 //@ define case1() = F0 != nil && msg != nil && int(F0.MessageType) == 12 && ghostDepth(0) == 1
 //@ define case2() = F0 != nil && msg != nil && int(F0.MessageType) == 12 && ghostDepth(0) == 2
+//@ define ok1() = case1() && result1 == nil
+//@ define ok2() = case2() && result1 == nil
 //@ define inner1() = result0.(*RelayMessage).Options.Options[0].(*optRelayMsg).Msg
 //@ define hdrLevel(R, F, inner) = R != nil && int(R.MessageType) == 13 && R.LinkAddr == F.LinkAddr && R.PeerAddr == F.PeerAddr && len(R.Options.Options) >= 1 && typeIs(R.Options.Options[0], *optRelayMsg) && R.Options.Options[0].(*optRelayMsg).Msg == inner
 //@ define isFirst(x, fo, c) = exists i int :: {fo[i]} firstWithCode(fo, c, i) && x == fo[i]
@@ -265,22 +268,24 @@ func ghostMark(k int) int { return k }
 //@   after `m := DHCPv6(msg)` assert[collected] msg != nil && int(F0.MessageType) == 12 && len(linkAddr) == ghostDepth(0) && len(peerAddr) == ghostDepth(0) && len(optiid) == ghostDepth(0) && len(optrid) == ghostDepth(0) && collected(0, F0) && (ghostDepth(0) == 2 ==> collected(1, fwd1())) && m == DHCPv6(msg)
 //@   ensures[nil] F0 == nil || msg == nil ==> result1 != nil
 //@   ensures[type] F0 != nil && int(F0.MessageType) != 12 ==> result1 != nil
-//@   ensures[one-a] case1() ==> result1 == nil && typeIs(result0, *RelayMessage) && result0.(*RelayMessage) != nil
-//@   ensures[one-b1] case1() ==> int(result0.(*RelayMessage).MessageType) == 13
-//@   ensures[one-b2] case1() ==> result0.(*RelayMessage).LinkAddr == F0.LinkAddr
-//@   ensures[one-b3] case1() ==> len(result0.(*RelayMessage).Options.Options) >= 1
-//@   ensures[one-b4] case1() ==> typeIs(result0.(*RelayMessage).Options.Options[0], *optRelayMsg)
-//@   ensures[one-b5] case1() ==> result0.(*RelayMessage).Options.Options[0].(*optRelayMsg).Msg == DHCPv6(msg)
-//@   ensures[one-b6] case1() && noneWithCode(F0.Options.Options, 18) && noneWithCode(F0.Options.Options, 37) ==> typeIs(result0.(*RelayMessage).Options.Options[0], *optRelayMsg)
-//@   ensures[one-c] case1() ==> echo18(result0.(*RelayMessage).Options.Options, F0.Options.Options)
-//@   ensures[one-d] case1() ==> echo37(result0.(*RelayMessage).Options.Options, F0.Options.Options)
-//@   ensures[one-e] case1() ==> echoLen(result0.(*RelayMessage).Options.Options, F0.Options.Options)
-//@   ensures[two-a] case2() ==> result1 == nil && typeIs(result0, *RelayMessage) && result0.(*RelayMessage) != nil && len(result0.(*RelayMessage).Options.Options) >= 1 && typeIs(result0.(*RelayMessage).Options.Options[0], *optRelayMsg) && typeIs(inner1(), *RelayMessage)
-//@   ensures[two-b] case2() ==> hdrLevel(result0.(*RelayMessage), F0, inner1())
-//@   ensures[two-c18] case2() ==> echo18(result0.(*RelayMessage).Options.Options, F0.Options.Options)
-//@   ensures[two-c37] case2() ==> echo37(result0.(*RelayMessage).Options.Options, F0.Options.Options)
-//@   ensures[two-clen] case2() ==> echoLen(result0.(*RelayMessage).Options.Options, F0.Options.Options)
-//@   ensures[two-d] case2() ==> hdrLevel(inner1().(*RelayMessage), fwd1(), DHCPv6(msg))
-//@   ensures[two-e18] case2() ==> echo18(inner1().(*RelayMessage).Options.Options, fwd1().Options.Options)
-//@   ensures[two-e37] case2() ==> echo37(inner1().(*RelayMessage).Options.Options, fwd1().Options.Options)
-//@   ensures[two-elen] case2() ==> echoLen(inner1().(*RelayMessage).Options.Options, fwd1().Options.Options)
+//@   ensures[one-noerr] case1() ==> result1 == nil
+//@   ensures[one-a] ok1() ==> typeIs(result0, *RelayMessage) && result0.(*RelayMessage) != nil
+//@   ensures[one-b1] ok1() ==> int(result0.(*RelayMessage).MessageType) == 13
+//@   ensures[one-b2] ok1() ==> result0.(*RelayMessage).LinkAddr == F0.LinkAddr
+//@   ensures[one-b3] ok1() ==> len(result0.(*RelayMessage).Options.Options) >= 1
+//@   ensures[one-b4] ok1() ==> typeIs(result0.(*RelayMessage).Options.Options[0], *optRelayMsg)
+//@   ensures[one-b5] ok1() ==> result0.(*RelayMessage).Options.Options[0].(*optRelayMsg).Msg == DHCPv6(msg)
+//@   ensures[one-b6] ok1() && noneWithCode(F0.Options.Options, 18) && noneWithCode(F0.Options.Options, 37) ==> typeIs(result0.(*RelayMessage).Options.Options[0], *optRelayMsg)
+//@   ensures[one-c] ok1() ==> echo18(result0.(*RelayMessage).Options.Options, F0.Options.Options)
+//@   ensures[one-d] ok1() ==> echo37(result0.(*RelayMessage).Options.Options, F0.Options.Options)
+//@   ensures[one-e] ok1() ==> echoLen(result0.(*RelayMessage).Options.Options, F0.Options.Options)
+//@   ensures[two-noerr] case2() ==> result1 == nil
+//@   ensures[two-a] ok2() ==> typeIs(result0, *RelayMessage) && result0.(*RelayMessage) != nil && len(result0.(*RelayMessage).Options.Options) >= 1 && typeIs(result0.(*RelayMessage).Options.Options[0], *optRelayMsg) && typeIs(inner1(), *RelayMessage)
+//@   ensures[two-b] ok2() ==> hdrLevel(result0.(*RelayMessage), F0, inner1())
+//@   ensures[two-c18] ok2() ==> echo18(result0.(*RelayMessage).Options.Options, F0.Options.Options)
+//@   ensures[two-c37] ok2() ==> echo37(result0.(*RelayMessage).Options.Options, F0.Options.Options)
+//@   ensures[two-clen] ok2() ==> echoLen(result0.(*RelayMessage).Options.Options, F0.Options.Options)
+//@   ensures[two-d] ok2() ==> hdrLevel(inner1().(*RelayMessage), fwd1(), DHCPv6(msg))
+//@   ensures[two-e18] ok2() ==> echo18(inner1().(*RelayMessage).Options.Options, fwd1().Options.Options)
+//@   ensures[two-e37] ok2() ==> echo37(inner1().(*RelayMessage).Options.Options, fwd1().Options.Options)
+//@   ensures[two-elen] ok2() ==> echoLen(inner1().(*RelayMessage).Options.Options, fwd1().Options.Options)
